@@ -819,7 +819,8 @@ class C19(Prop):
                   '(binary64 ticks and sampling intervals).  While a defect is open the model mirrors it (Validator.tagUnits_variant / '
                   'propUnit_variant = AsPinned): Properties_C19 then holds the refutation of the full statement for that variant next '
                   'to the partial statement, and the full statement proved for the repaired variant.')
-    technique = 'Coq proof over a hand-written validator model + correspondence on generated nix files with breach injection'
+    technique = ('Coq proof over a validator model whose rule tables are proved equal to tables regenerated from src/valid/validate.cpp '
+                 'on every run + correspondence on generated nix files with breach injection')
     nontrivial_rule = ('first a directed family (every loop of checks.cpp, of the rule tables and of File::validate with the '
                        'breaching dimension / unit / reference / sibling entity at the first, a middle and the last position, all '
                        'other elements fine), then random files: a case is a complete nix file (1-3 blocks, rank 1-3 arrays with set/sampled/range/alias/data-frame dimensions, '
@@ -833,7 +834,10 @@ class C19(Prop):
                    'entity ids are pairwise distinct and different from "unknown" (C12)',
                    'calls made outside the try block of a condition (id(), name(), the getters inside check functors) do not throw; '
                    'files on which they do make File::validate() itself throw and are outside the model']
-    trusted_base = ['hand-written model coq/Valid/Validator.v, tied by the correspondence run',
+    trusted_base = ['rule tables: tools/translate/gen.py (gen_validate) regenerates coq/Gen/GenValidate.v from src/valid/validate.cpp on every '
+                    'run; C19_rule_tables_are_generated / C19_tables_are_interpretations tie the model tables to it',
+                    'check functors, getters (environments of coq/Valid/ValidRules.v), the loops of checks.cpp and the walk of '
+                    'File::validate: hand-written in coq/Valid/Validator.v, tied by the correspondence run',
                     'tools/props/C19.py judge (Python twin of ValidSpec.judge1), cross-checked on every case against the extracted judge']
 
     def __init__(self):
